@@ -24,6 +24,7 @@ CHECKS = {
     'goose.go': ['C02', 'C01', 'C05', 'C04', 'C07'],
     'types.go': ['C02', 'C01', 'C04'],
     'interface.go': ['C04', 'C06', 'C07', 'C08'],
+    'ifaceconv.go': ['C02'],
     'internal/coq/coq.go': ['C05', 'C01', 'C08'],
     'cmd/goose/main.go': ['C17', 'C06'],
     'cmd/test_gen/main.go': ['C18'],
